@@ -501,6 +501,108 @@ var globalAssumptions = []string{
 }
 
 var propAssumptions = map[string][]string{
+	"C01": {
+		"scope: Engine.Send/SendWithSender/send/isLocalMessage/SendLocal, process.Send, Inbox.Send/schedule/run, process.Invoke/invokeMsg (+ package ringbuffer through C14); interleavings of senders and the worker are C02/C03",
+		"thread confinement: Start/Invoke/invokeMsg/tryRestart/cleanup run on the inbox worker or (first Start) on the spawning goroutine, one at a time (C02; not decided by this check)",
+		"user code (Receive, Producer, middleware, handlers reached through them) cannot write the engine's private fields (process, Context, Inbox, Registry, Engine, PID objects, envelope slices, the middleware slice) except through calls this proof does not see; nested engine activity of user code on other actors is not part of this function's effect log",
+		"functype ReceiveFunc / Receiver.Receive: may panic except while handling Stopped; a panic value is never a typed-nil *InternalError",
+		"functype Producer: returns a non-nil receiver, does not panic; functype MiddlewareFunc: pure, returns a non-nil function named wrap(mw, next)",
+		"envelopes never carry Initialized/Started/Stopped values as user messages",
+		"abstract contracts: Inboxer.Start/Stop/Send, Processer.Send/Start/Invoke/PID, Scheduler.Schedule/Throughput, Remoter.Send, context.CancelFunc (each appends exactly one event to the effect log, no other heap effect)",
+		"trusted contracts: Engine.BroadcastEvent (one Broadcast entry; body checked separately as BroadcastEvent!impl), Engine.Poison (one PoisonSent entry; body is a one-line call of sendPoisonPill), Context.Children (fresh slice), cleanTrace (pure), NewResponse, SafeMap.Len/Delete",
+		"recursive ghost definition mwchain is well-founded (recursion on n - i); instances are added only by explicit unfold statements",
+	},
+	"C04": {
+		"scope: process.Start (with its recover handler), Invoke (with its recover handler), invokeMsg, tryRestart, cleanup, Registry.add",
+		"thread confinement: Start/Invoke/invokeMsg/tryRestart/cleanup run on the inbox worker or (first Start) on the spawning goroutine, one at a time (C02; not decided by this check)",
+		"user code (Receive, Producer, middleware, handlers reached through them) cannot write the engine's private fields (process, Context, Inbox, Registry, Engine, PID objects, envelope slices, the middleware slice) except through calls this proof does not see; nested engine activity of user code on other actors is not part of this function's effect log",
+		"functype ReceiveFunc / Receiver.Receive: may panic except while handling Stopped; a panic value is never a typed-nil *InternalError",
+		"functype Producer: returns a non-nil receiver, does not panic; functype MiddlewareFunc: pure, returns a non-nil function named wrap(mw, next)",
+		"envelopes never carry Initialized/Started/Stopped values as user messages",
+		"abstract contracts: Inboxer.Start/Stop/Send, Processer.Send/Start/Invoke/PID, Scheduler.Schedule/Throughput, Remoter.Send, context.CancelFunc (each appends exactly one event to the effect log, no other heap effect)",
+		"trusted contracts: Engine.BroadcastEvent (one Broadcast entry; body checked separately as BroadcastEvent!impl), Engine.Poison (one PoisonSent entry; body is a one-line call of sendPoisonPill), Context.Children (fresh slice), cleanTrace (pure), NewResponse, SafeMap.Len/Delete",
+		"recursive ghost definition mwchain is well-founded (recursion on n - i); instances are added only by explicit unfold statements",
+	},
+	"C05": {
+		"scope: process.Invoke (with its recover handler), Start, tryRestart",
+		"thread confinement: Start/Invoke/invokeMsg/tryRestart/cleanup run on the inbox worker or (first Start) on the spawning goroutine, one at a time (C02; not decided by this check)",
+		"user code (Receive, Producer, middleware, handlers reached through them) cannot write the engine's private fields (process, Context, Inbox, Registry, Engine, PID objects, envelope slices, the middleware slice) except through calls this proof does not see; nested engine activity of user code on other actors is not part of this function's effect log",
+		"functype ReceiveFunc / Receiver.Receive: may panic except while handling Stopped; a panic value is never a typed-nil *InternalError",
+		"functype Producer: returns a non-nil receiver, does not panic; functype MiddlewareFunc: pure, returns a non-nil function named wrap(mw, next)",
+		"envelopes never carry Initialized/Started/Stopped values as user messages",
+		"abstract contracts: Inboxer.Start/Stop/Send, Processer.Send/Start/Invoke/PID, Scheduler.Schedule/Throughput, Remoter.Send, context.CancelFunc (each appends exactly one event to the effect log, no other heap effect)",
+		"trusted contracts: Engine.BroadcastEvent (one Broadcast entry; body checked separately as BroadcastEvent!impl), Engine.Poison (one PoisonSent entry; body is a one-line call of sendPoisonPill), Context.Children (fresh slice), cleanTrace (pure), NewResponse, SafeMap.Len/Delete",
+		"recursive ghost definition mwchain is well-founded (recursion on n - i); instances are added only by explicit unfold statements",
+	},
+	"C06": {
+		"scope: process.tryRestart, cleanup, Start, Invoke; MaxRestarts >= 0",
+		"thread confinement: Start/Invoke/invokeMsg/tryRestart/cleanup run on the inbox worker or (first Start) on the spawning goroutine, one at a time (C02; not decided by this check)",
+		"user code (Receive, Producer, middleware, handlers reached through them) cannot write the engine's private fields (process, Context, Inbox, Registry, Engine, PID objects, envelope slices, the middleware slice) except through calls this proof does not see; nested engine activity of user code on other actors is not part of this function's effect log",
+		"functype ReceiveFunc / Receiver.Receive: may panic except while handling Stopped; a panic value is never a typed-nil *InternalError",
+		"functype Producer: returns a non-nil receiver, does not panic; functype MiddlewareFunc: pure, returns a non-nil function named wrap(mw, next)",
+		"envelopes never carry Initialized/Started/Stopped values as user messages",
+		"abstract contracts: Inboxer.Start/Stop/Send, Processer.Send/Start/Invoke/PID, Scheduler.Schedule/Throughput, Remoter.Send, context.CancelFunc (each appends exactly one event to the effect log, no other heap effect)",
+		"trusted contracts: Engine.BroadcastEvent (one Broadcast entry; body checked separately as BroadcastEvent!impl), Engine.Poison (one PoisonSent entry; body is a one-line call of sendPoisonPill), Context.Children (fresh slice), cleanTrace (pure), NewResponse, SafeMap.Len/Delete",
+		"recursive ghost definition mwchain is well-founded (recursion on n - i); instances are added only by explicit unfold statements",
+	},
+	"C07": {
+		"scope: Engine.sendPoisonPill/Stop, process.Invoke/invokeMsg/cleanup; Engine.Poison/PoisonCtx are one-line wrappers of sendPoisonPill (Poison trusted)",
+		"context.WithCancel model: returns a fresh non-nil context and its cancel func ctxcancel(ctx)",
+		"thread confinement: Start/Invoke/invokeMsg/tryRestart/cleanup run on the inbox worker or (first Start) on the spawning goroutine, one at a time (C02; not decided by this check)",
+		"user code (Receive, Producer, middleware, handlers reached through them) cannot write the engine's private fields (process, Context, Inbox, Registry, Engine, PID objects, envelope slices, the middleware slice) except through calls this proof does not see; nested engine activity of user code on other actors is not part of this function's effect log",
+		"functype ReceiveFunc / Receiver.Receive: may panic except while handling Stopped; a panic value is never a typed-nil *InternalError",
+		"functype Producer: returns a non-nil receiver, does not panic; functype MiddlewareFunc: pure, returns a non-nil function named wrap(mw, next)",
+		"envelopes never carry Initialized/Started/Stopped values as user messages",
+		"abstract contracts: Inboxer.Start/Stop/Send, Processer.Send/Start/Invoke/PID, Scheduler.Schedule/Throughput, Remoter.Send, context.CancelFunc (each appends exactly one event to the effect log, no other heap effect)",
+		"trusted contracts: Engine.BroadcastEvent (one Broadcast entry; body checked separately as BroadcastEvent!impl), Engine.Poison (one PoisonSent entry; body is a one-line call of sendPoisonPill), Context.Children (fresh slice), cleanTrace (pure), NewResponse, SafeMap.Len/Delete",
+		"recursive ghost definition mwchain is well-founded (recursion on n - i); instances are added only by explicit unfold statements",
+	},
+	"C09": {
+		"scope: Engine.send/Send/SendWithSender/SendLocal/isLocalMessage/sendPoisonPill, BroadcastEvent (body), Context.Forward, eventStream.Receive",
+		"thread confinement: Start/Invoke/invokeMsg/tryRestart/cleanup run on the inbox worker or (first Start) on the spawning goroutine, one at a time (C02; not decided by this check)",
+		"user code (Receive, Producer, middleware, handlers reached through them) cannot write the engine's private fields (process, Context, Inbox, Registry, Engine, PID objects, envelope slices, the middleware slice) except through calls this proof does not see; nested engine activity of user code on other actors is not part of this function's effect log",
+		"functype ReceiveFunc / Receiver.Receive: may panic except while handling Stopped; a panic value is never a typed-nil *InternalError",
+		"functype Producer: returns a non-nil receiver, does not panic; functype MiddlewareFunc: pure, returns a non-nil function named wrap(mw, next)",
+		"envelopes never carry Initialized/Started/Stopped values as user messages",
+		"abstract contracts: Inboxer.Start/Stop/Send, Processer.Send/Start/Invoke/PID, Scheduler.Schedule/Throughput, Remoter.Send, context.CancelFunc (each appends exactly one event to the effect log, no other heap effect)",
+		"trusted contracts: Engine.BroadcastEvent (one Broadcast entry; body checked separately as BroadcastEvent!impl), Engine.Poison (one PoisonSent entry; body is a one-line call of sendPoisonPill), Context.Children (fresh slice), cleanTrace (pure), NewResponse, SafeMap.Len/Delete",
+		"recursive ghost definition mwchain is well-founded (recursion on n - i); instances are added only by explicit unfold statements",
+	},
+	"C11": {
+		"scope: Engine.Request, Context.Respond/Message/PID, Response.Send/Result/PID",
+		"select and channel operations: nondeterministic choice among the cases, received values arbitrary; context.WithTimeout returns a fresh context and its cancel func",
+		"thread confinement: Start/Invoke/invokeMsg/tryRestart/cleanup run on the inbox worker or (first Start) on the spawning goroutine, one at a time (C02; not decided by this check)",
+		"user code (Receive, Producer, middleware, handlers reached through them) cannot write the engine's private fields (process, Context, Inbox, Registry, Engine, PID objects, envelope slices, the middleware slice) except through calls this proof does not see; nested engine activity of user code on other actors is not part of this function's effect log",
+		"functype ReceiveFunc / Receiver.Receive: may panic except while handling Stopped; a panic value is never a typed-nil *InternalError",
+		"functype Producer: returns a non-nil receiver, does not panic; functype MiddlewareFunc: pure, returns a non-nil function named wrap(mw, next)",
+		"envelopes never carry Initialized/Started/Stopped values as user messages",
+		"abstract contracts: Inboxer.Start/Stop/Send, Processer.Send/Start/Invoke/PID, Scheduler.Schedule/Throughput, Remoter.Send, context.CancelFunc (each appends exactly one event to the effect log, no other heap effect)",
+		"trusted contracts: Engine.BroadcastEvent (one Broadcast entry; body checked separately as BroadcastEvent!impl), Engine.Poison (one PoisonSent entry; body is a one-line call of sendPoisonPill), Context.Children (fresh slice), cleanTrace (pure), NewResponse, SafeMap.Len/Delete",
+		"recursive ghost definition mwchain is well-founded (recursion on n - i); instances are added only by explicit unfold statements",
+	},
+	"C12": {
+		"scope: eventStream.Receive, Engine.Subscribe/Unsubscribe, Context.Forward, BroadcastEvent (body) and the publication sites in Start, cleanup, tryRestart",
+		"abstract contract of EventLogger.Log: pure",
+		"thread confinement: Start/Invoke/invokeMsg/tryRestart/cleanup run on the inbox worker or (first Start) on the spawning goroutine, one at a time (C02; not decided by this check)",
+		"user code (Receive, Producer, middleware, handlers reached through them) cannot write the engine's private fields (process, Context, Inbox, Registry, Engine, PID objects, envelope slices, the middleware slice) except through calls this proof does not see; nested engine activity of user code on other actors is not part of this function's effect log",
+		"functype ReceiveFunc / Receiver.Receive: may panic except while handling Stopped; a panic value is never a typed-nil *InternalError",
+		"functype Producer: returns a non-nil receiver, does not panic; functype MiddlewareFunc: pure, returns a non-nil function named wrap(mw, next)",
+		"envelopes never carry Initialized/Started/Stopped values as user messages",
+		"abstract contracts: Inboxer.Start/Stop/Send, Processer.Send/Start/Invoke/PID, Scheduler.Schedule/Throughput, Remoter.Send, context.CancelFunc (each appends exactly one event to the effect log, no other heap effect)",
+		"trusted contracts: Engine.BroadcastEvent (one Broadcast entry; body checked separately as BroadcastEvent!impl), Engine.Poison (one PoisonSent entry; body is a one-line call of sendPoisonPill), Context.Children (fresh slice), cleanTrace (pure), NewResponse, SafeMap.Len/Delete",
+		"recursive ghost definition mwchain is well-founded (recursion on n - i); instances are added only by explicit unfold statements",
+	},
+	"C13": {
+		"scope: applyMiddleware and every delivery site in Start, Invoke, invokeMsg, cleanup and the two recover handlers",
+		"thread confinement: Start/Invoke/invokeMsg/tryRestart/cleanup run on the inbox worker or (first Start) on the spawning goroutine, one at a time (C02; not decided by this check)",
+		"user code (Receive, Producer, middleware, handlers reached through them) cannot write the engine's private fields (process, Context, Inbox, Registry, Engine, PID objects, envelope slices, the middleware slice) except through calls this proof does not see; nested engine activity of user code on other actors is not part of this function's effect log",
+		"functype ReceiveFunc / Receiver.Receive: may panic except while handling Stopped; a panic value is never a typed-nil *InternalError",
+		"functype Producer: returns a non-nil receiver, does not panic; functype MiddlewareFunc: pure, returns a non-nil function named wrap(mw, next)",
+		"envelopes never carry Initialized/Started/Stopped values as user messages",
+		"abstract contracts: Inboxer.Start/Stop/Send, Processer.Send/Start/Invoke/PID, Scheduler.Schedule/Throughput, Remoter.Send, context.CancelFunc (each appends exactly one event to the effect log, no other heap effect)",
+		"trusted contracts: Engine.BroadcastEvent (one Broadcast entry; body checked separately as BroadcastEvent!impl), Engine.Poison (one PoisonSent entry; body is a one-line call of sendPoisonPill), Context.Children (fresh slice), cleanTrace (pure), NewResponse, SafeMap.Len/Delete",
+		"recursive ghost definition mwchain is well-founded (recursion on n - i); instances are added only by explicit unfold statements",
+	},
 	"C10": {
 		"scope: Registry.add/Remove/get/getByID/GetPID, Context.GetPID, Engine.SpawnProc; Engine.Spawn/newProcess and the callers of Remove are outside this check",
 		"sync.RWMutex: mutual exclusion and a total order of critical sections; the protected map is havoced at every Lock/RLock and at every call of a locked Registry method, so nothing is assumed about other threads beyond the lock invariant",
